@@ -526,6 +526,56 @@ Definition process_request_body (fold : bytes -> bytes) (cfg : body_cfg) (o : bo
     end.
 
 (* ------------------------------------------------------------------------------------ *)
+(* the request body delivered in chunks under SecRequestBodyLimit (transaction.go:          *)
+(* WriteRequestBody, ReadRequestBodyFrom, the final ProcessRequestBody)                    *)
+(* Preconditions kept by the harness: engine on, body access on, no rule interrupts.       *)
+(* ------------------------------------------------------------------------------------ *)
+
+(* WriteRequestBody(b) / ReadRequestBodyFrom(reader with Len()) / ReadRequestBodyFrom(plain reader) *)
+Inductive body_api := ViaWrite | ViaReadLen | ViaReadNoLen.
+
+Record bstate := mk_bst {
+  bs_buf : bytes;            (* requestBodyBuffer *)
+  bs_inbound : bool;         (* INBOUND_DATA_ERROR = "1" *)
+  bs_interrupted : bool;     (* tx.interruption != nil (413 deny) *)
+  bs_processed : bool;       (* lastPhase = request body: ProcessRequestBody already ran *)
+  bs_tx : txv
+}.
+
+(* ProcessRequestBody: nothing when interrupted or already run, else the processor on the buffer *)
+Definition bs_run (process : bytes -> txv -> txv) (s : bstate) : bstate :=
+  if bs_interrupted s || bs_processed s then s
+  else mk_bst (bs_buf s) (bs_inbound s) (bs_interrupted s) true (process (bs_buf s) (bs_tx s)).
+
+Definition body_step (limit : nat) (reject : bool) (process : bytes -> txv -> txv)
+    (s : bstate) (c : body_api * bytes) : bstate :=
+  let '(api, chunk) := c in
+  let len := length (bs_buf s) in
+  (* "RequestBodyLimit == requestBodyBuffer.length": the limit was reported before, return *)
+  if (limit =? len)%nat then s
+  else
+    match api with
+    | ViaReadNoLen =>
+      (* writingBytes = limit - length; io.CopyN; afterwards "length == limit" is checked *)
+      let buf := bs_buf s ++ firstn (limit - len) chunk in
+      if (length buf =? limit)%nat then
+        if reject then mk_bst buf true true (bs_processed s) (bs_tx s)
+        else bs_run process (mk_bst buf true (bs_interrupted s) (bs_processed s) (bs_tx s))
+      else mk_bst buf (bs_inbound s) (bs_interrupted s) (bs_processed s) (bs_tx s)
+    | _ =>
+      (* "length + writingBytes >= limit" *)
+      if (limit <=? len + length chunk)%nat then
+        if reject then mk_bst (bs_buf s) true true (bs_processed s) (bs_tx s)
+        else bs_run process (mk_bst (bs_buf s ++ firstn (limit - len) chunk) true
+                                    (bs_interrupted s) (bs_processed s) (bs_tx s))
+      else mk_bst (bs_buf s ++ chunk) (bs_inbound s) (bs_interrupted s) (bs_processed s) (bs_tx s)
+    end.
+
+Definition body_stream (limit : nat) (reject : bool) (process : bytes -> txv -> txv)
+    (chunks : list (body_api * bytes)) (t0 : txv) : bstate :=
+  bs_run process (fold_left (body_step limit reject process) chunks (mk_bst [] false false false t0)).
+
+(* ------------------------------------------------------------------------------------ *)
 (* the INDEPENDENT encoders (mirrored in the harness): what a client does to send pairs  *)
 (* ------------------------------------------------------------------------------------ *)
 
